@@ -74,6 +74,14 @@ int                        snoopy_tsrm_get_threadCount      ();
 
 
 /*
+ * Calls into the C library that must not overlap with a fork() in another thread
+ */
+void   snoopy_tsrm_forkUnsafeLibcCall_enter ();
+void   snoopy_tsrm_forkUnsafeLibcCall_leave ();
+
+
+
+/*
  * END: Prevent cyclic inclusion
  */
 #endif   /* Cyclic inclusion */
